@@ -528,6 +528,11 @@ def _(eng, ci, a, sp):
     return Struct('SeqIter', [Vec([Vec(list(x), 'OsString') for x in eng.world.argv(eng)]), 0, 'val'])
 
 
+@S('args', 'env::args', 'std::env::args')
+def _(eng, ci, a, sp):
+    return Struct('SeqIter', [Vec([Vec(list(x), 'String') for x in eng.world.argv(eng)]), 0, 'val'])
+
+
 @S('<SeqIter as ExactSizeIterator>::len', 'ExactSizeIterator::len')
 def _(eng, ci, a, sp):
     it = deref_all(a[0])
